@@ -24,6 +24,8 @@ def setup():
     # the detection check sees true_class_probability inlined; here it is under its own contract
     v.inline.discard("soundevent.evaluation.metrics.true_class_probability")
     v.use("TrueClassProbability")
+    from pyvc.array_model import SCORE_MATRIX_MODEL
+    v.handlers.update(SCORE_MATRIX_MODEL)
     return v
 
 
@@ -40,6 +42,8 @@ def obligations(v, name):
                  "sound_event_classification": "OverallScoreSoundEventClassification"}[which]
         param = "evaluated_clip" if which == "sound_event_classification" else "evaluated_examples"
         return v.verify(cname, "C09", tag=f"[{n}]", fixed={param: scored(int(n))})
+    if name in ("Accuracy", "BalancedAccuracy", "Top3Accuracy"):
+        return v.verify(name, "C09")
     if name == "evaluate_example":
         return v.verify("EvaluateExample", "C09")
     if name == "evaluate_sound_event":
@@ -59,7 +63,7 @@ def aoef_metrics(v1, which):
     return roundtrip_obligations(v1, acls, prop="C09", label_fields=("metrics",))[0]
 
 
-NAMES = (["true_class_probability", "evaluate_example", "evaluate_sound_event"]
+NAMES = (["true_class_probability", "Accuracy", "BalancedAccuracy", "Top3Accuracy", "evaluate_example", "evaluate_sound_event"]
          + [f"overall_score[{w},{n}]" for w in TASKS[:3] for n in range(4)])
 
 
